@@ -11,6 +11,7 @@ import (
 	"fmt"
 	"go/ast"
 	"go/token"
+	"sort"
 	"strings"
 )
 
@@ -120,6 +121,45 @@ func init() {
 				continue
 			}
 			c18EmitTable(w, p[1]+"Table", args)
+		}
+		w.WriteString("\n/-! call sites of the escapers: (function, number of `.Replace` calls) -/\n")
+		for _, v := range []string{"formulaEscaper", "formulaUnescaper"} {
+			counts := map[string]int{}
+			for _, f := range files {
+				for _, d := range f.Decls {
+					fd, ok := d.(*ast.FuncDecl)
+					if !ok || fd.Body == nil {
+						continue
+					}
+					ast.Inspect(fd.Body, func(n ast.Node) bool {
+						c, ok := n.(*ast.CallExpr)
+						if !ok {
+							return true
+						}
+						sel, ok := c.Fun.(*ast.SelectorExpr)
+						if !ok || sel.Sel.Name != "Replace" {
+							return true
+						}
+						if id, ok := sel.X.(*ast.Ident); ok && id.Name == v {
+							counts[fd.Name.Name]++
+						}
+						return true
+					})
+				}
+			}
+			var names []string
+			for n := range counts {
+				names = append(names, n)
+			}
+			sort.Strings(names)
+			var items []string
+			for _, n := range names {
+				items = append(items, fmt.Sprintf("(%s, %d)", leanStr(n), counts[n]))
+			}
+			if len(items) == 0 {
+				fail("no call of %s.Replace left", v)
+			}
+			fmt.Fprintf(w, "def %sCallers : List (String × Nat) := [%s]\n", v, strings.Join(items, ", "))
 		}
 		w.WriteString("\n/-! reflection-routed setters/getters: helper and field list per call site -/\n")
 		for _, fnName := range []string{"SetWorkbookProps", "GetWorkbookProps", "SetCalcProps", "GetCalcProps", "SetAppProps", "SetDocProps"} {
